@@ -19,12 +19,6 @@ impl Instant {
     { unimplemented!() }
 }
 
-impl PartialEq for Instant {
-    #[verifier::external_body]
-    fn eq(&self, other: &Instant) -> (r: bool)
-        ensures r == (self.ticks() == other.ticks()),
-    { unimplemented!() }
-}
 
 // R4: P.as_ref().map(|p| p.to_vec()).unwrap_or_default()
 #[verifier::external_body]
